@@ -345,6 +345,19 @@ def run(db, tier):
               "every encoding except the last is tested (%s) and a hit is an error" % (good[0][1] if good else ""),
               "validate does not reject a `bs=` (read to end of blob) string in EVERY position but the last (tests found: %s): with two such strings the decoder gives "
               "the first one all remaining bytes and the second decodes as empty" % [(h[0], h[1]) for h in hits])
+    # block size of a `bs=` string is a divisor in the encoder (finding F28): zero must be refused where the signature is parsed
+    sa = db.fn("llir::abi::string_from_attrs")
+    rep.fn(sa)
+    zero_test = False
+    for n_ in _hw(sa.hir):
+        if n_.get("k") == "Binary" and n_.get("op") in ("==", "<", "<=", "!=", ">"):
+            sides = [n_["l"], n_["r"]]
+            lit0 = any(x.get("k") == "Lit" and re.match(r"^[01](_?u\d+)?$", x.get("v", "")) for x in sides)
+            on_bs = any(y.get("k") == "Path" and y.get("p") in ("bs", "user_bs") for x in sides for y in _hw(x))
+            if lit0 and on_bs:
+                zero_test = True
+    rep.check(zero_test, "R-VALIDATE", "string_from_attrs|bs is not zero", sa.loc, "the block size is compared with zero when the signature is parsed",
+              "string_from_attrs no longer tests `bs` against zero: `z(bs=0)` reaches `len % block_size` in the encoder (remainder by zero panic)")
     from props import c15
     rep.absorb(c15.run(db, tier), rules=("R-LAYER-ORDER", "R-FIT", "R-NOREPLACE"), why="string arguments are part of the argument codec")
 
